@@ -871,9 +871,9 @@ fn time_boundary(ctx: &Ctx, env: &Env, case: &CaseId, i: u64) {
 		let mut p = CertificateParams::default();
 		if field == 0 { p.not_before = t } else { p.not_after = t }
 		let p2 = p.clone();
-		let r = call(ctx, env, case, "self_signed(time boundary)", &txt, || p.self_signed(&env.key).map(|c| c.der().len()));
+		let r = call(ctx, env, case, "self_signed(time-boundary)", &txt, || p.self_signed(&env.key).map(|c| c.der().len()));
 		ctx.count(match r { Some(Ok(_)) => "outcome:time-boundary:ok", Some(Err(_)) => "outcome:time-boundary:refused", None => "outcome:time-boundary:panicked" });
-		let _ = call(ctx, env, case, "signed_by(time boundary)", &txt, || p2.signed_by(&env.key, &env.ca, &env.key).map(|c| c.der().len()));
+		let _ = call(ctx, env, case, "signed_by(time-boundary)", &txt, || p2.signed_by(&env.key, &env.ca, &env.key).map(|c| c.der().len()));
 	} else {
 		let mut c = benign_crl();
 		match field {
@@ -882,7 +882,7 @@ fn time_boundary(ctx: &Ctx, env: &Env, case: &CaseId, i: u64) {
 			4 => c.revoked_certs[0].revocation_time = t,
 			_ => c.revoked_certs[0].invalidity_date = Some(t),
 		}
-		let r = call(ctx, env, case, "crl_signed_by(time boundary)", &txt, || c.signed_by(&env.ca, &env.key).map(|l| l.der().len()));
+		let r = call(ctx, env, case, "crl_signed_by(time-boundary)", &txt, || c.signed_by(&env.ca, &env.key).map(|l| l.der().len()));
 		ctx.count(match r { Some(Ok(_)) => "outcome:time-boundary:ok", Some(Err(_)) => "outcome:time-boundary:refused", None => "outcome:time-boundary:panicked" });
 	}
 }
